@@ -949,6 +949,31 @@ class World(object):
                 self.gclock.advance(dt)
         return fired
 
+    def jump(self, dt):
+        """The process was suspended (or the reactor was busy) for dt: the clock moves on in one go and the service's
+        LoopingCall fires once, late, however many periods have passed (then it is back on its old phase)."""
+        target = self.now + dt
+        due = False
+        if self.clock is not None and self.running:
+            calls = self.clock.getDelayedCalls()
+            nxt = min([c.getTime() for c in calls], default=None)
+            due = nxt is not None and self._life_t0() + nxt <= target
+        self.set_time(target)
+        if self.clock is not None and self.running:
+            delta = (target - self._life_t0()) - self.clock.seconds()
+            if due:
+                st = self._begin("sweep")
+                try:
+                    self.clock.advance(delta)
+                except Exception as e:
+                    st.exc = "%s: %s" % (type(e).__name__, e)
+                    st.tb = traceback.format_exc()
+                self._end(st)
+            elif delta > 0:
+                self.clock.advance(delta)
+        if self.gclock is not None:
+            self.gclock.advance(dt)
+
     def pump_rounds(self, n=1):
         """Run n reactor turns' worth of deferred calls (each round: the calls due now, not the ones they schedule)."""
         st = self._begin("turn")
